@@ -222,3 +222,30 @@ Definition check_trcard (c : trcard_case) : bool :=
   | T4V.C04.Model.Err _, None => true
   | _, _ => false
   end.
+
+(* ---------- macrobody card texts (C02/LinkC03.v) ---------- *)
+From T4V Require C03.Convert C03.Vec.
+From T4V Require Import C02.LinkC03.
+
+Definition kind_of3 (k : T4V.C03.Convert.t4type) : t4type :=
+  match k with
+  | T4V.C03.Convert.PLANEX => PLANEX | T4V.C03.Convert.PLANEY => PLANEY | T4V.C03.Convert.PLANEZ => PLANEZ
+  | T4V.C03.Convert.PLANE => PLANE | T4V.C03.Convert.SPHERE => SPHERE
+  | T4V.C03.Convert.CYLX => CYLX | T4V.C03.Convert.CYLY => CYLY | T4V.C03.Convert.CYLZ => CYLZ
+  | T4V.C03.Convert.CYL => CYL
+  | T4V.C03.Convert.CONEX => CONEX | T4V.C03.Convert.CONEY => CONEY | T4V.C03.Convert.CONEZ => CONEZ
+  | T4V.C03.Convert.CONE => CONE | T4V.C03.Convert.QUAD => QUAD
+  end.
+
+(* (n) a macrobody card text without TR: C02's scanner + C03's body_t4 against
+   get_surfaces + to_surfaces_mcnp + convert_mcnp_surface; None = raised *)
+Definition bodytext_case : Type := (string * option (list (t4type * list float * Z)))%type.
+Definition check_bodytext (c : bodytext_case) : bool :=
+  match convert_text_body_g FS (fst c), snd c with
+  | T4V.C03.Vec.Ok l, Some l' =>
+      all2 (fun (a : T4V.C03.Convert.t4type * list float * Z) (b : t4type * list float * Z) =>
+              let '(ka, pa, sa) := a in let '(kb, pb, sb) := b in
+              t4type_eqb (kind_of3 ka) kb && floats_eqb pa pb && Z.eqb sa sb) l l'
+  | T4V.C03.Vec.Err _, None => true
+  | _, _ => false
+  end.
